@@ -40,9 +40,13 @@ def scenario(ctx, i):
     single = bool(r.random() < 0.2)
     if single:
         tests = tests[:1]
+    int_first = bool(len(tests) >= 2 and r.random() < 0.3)
+    if int_first:  # hard-assignment statistics first in the list: integer-valued n and sum_px in integer-typed arrays
+        tests[0]["n"] = np.rint(tests[0]["n"])
+        tests[0]["px"] = np.rint(tests[0]["px"])
     ok = ["scalar", "shared", "per_test"][int(r.integers(0, 3))]
     off = 0.0 if ok == "scalar" else (r.normal(size=(C, D)) * np.sqrt(v) * 0.2 if ok == "shared" else np.array([r.normal(size=(C, D)) * np.sqrt(v) * 0.2 for _ in tests]))
-    return dict(C=C, D=D, w=w, m=m, v=v, models=models, models_kind=mk, tests=tests, single=single, off_kind=ok, off=off, norm=bool(r.integers(0, 2)), ubm_is_map=bool(r.random() < 0.3), ubm_warm_start=bool(r.random() < 0.3))
+    return dict(C=C, D=D, w=w, m=m, v=v, models=models, models_kind=mk, tests=tests, single=single, off_kind=ok, off=off, norm=bool(r.integers(0, 2)), norm_form=["bool", "bool", "np_bool", "int"][int(r.integers(0, 4))], ubm_is_map=bool(r.random() < 0.3), ubm_warm_start=bool(r.random() < 0.3), int_first=int_first)
 
 
 def call_impl(sc):
@@ -67,14 +71,20 @@ def call_impl(sc):
     else:
         mm = np.array(sc["models"][0])
     sts = [gen.mk_stats(sc["C"], sc["D"], t["n"], t["px"], np.zeros((sc["C"], sc["D"])), t["t"]) for t in sc["tests"]]
+    if sc.get("int_first"):
+        sts[0].n = np.asarray(sts[0].n).astype(np.int64)
+        sts[0].sum_px = np.asarray(sts[0].sum_px).astype(np.int64)
     st_arg = sts[0] if sc["single"] else sts
     off = sc["off"]
+    # the option is a flag: every truthy / falsy spelling a caller may come up with (a NumPy comparison result, 0 / 1) means the same
+    flag = {"bool": bool, "np_bool": np.bool_, "int": int}[sc.get("norm_form", "bool")](sc["norm"])
+
     def run():
         # the same argument objects are scored twice: a pure function returns the same scores and leaves its arguments alone
         keep = mm.copy() if isinstance(mm, np.ndarray) else None
         keep_off = np.array(off, dtype=float, copy=True) if isinstance(off, np.ndarray) else None
-        r1 = np.asarray(linear_scoring(mm, ubm_arg, st_arg, off, sc["norm"]), dtype=float)
-        r2 = np.asarray(linear_scoring(mm, ubm_arg, st_arg, off, sc["norm"]), dtype=float)
+        r1 = np.asarray(linear_scoring(mm, ubm_arg, st_arg, off, flag), dtype=float)
+        r2 = np.asarray(linear_scoring(mm, ubm_arg, st_arg, off, flag), dtype=float)
         if keep is not None and not np.array_equal(mm, keep):
             raise RuntimeError("linear_scoring modified the array of model means it was given")
         if keep_off is not None and not np.array_equal(off, keep_off):
